@@ -126,6 +126,8 @@ fn main() {
             "grp" => suites::group::run(&mut ctx),
             "eg" => suites::eg::run(&mut ctx),
             "hist" => suites::hist::run(&mut ctx),
+            "snap" => suites::snap::run(&mut ctx),
+            "look" => suites::look::run(&mut ctx),
             "ord" => suites::meta::run_order(&mut ctx),
             "ren" => suites::meta::run_rename(&mut ctx),
             _ => panic!("unknown suite"),
